@@ -70,6 +70,7 @@ def main():
     if os.environ.get('VERIF_SHARED_BUILDER'):
         from dznpy.adv_shell import Builder  # pylint: disable=import-outside-toplevel
         builder = Builder()
+    shared_cfg = [] if os.environ.get('VERIF_SHARED_CONFIGURATION') else None
     order = list(enumerate(cases))
     if os.environ.get('VERIF_REVERSE_CASES'):
         order.reverse()      # what was built before a case differs from process to process
@@ -79,7 +80,20 @@ def main():
                 continue
             try:
                 fc = shellbuild.parse_doc(case['doc'])
-                files = shellbuild.build_files(case['cfg'], fc, order_seed, builder=builder)
+                if shared_cfg is not None:
+                    # one Configuration object filled in anew for every job of a batch
+                    import dataclasses  # pylint: disable=import-outside-toplevel
+                    from dznpy.adv_shell import Builder as _B  # pylint: disable=import-outside-toplevel
+                    wanted = shellbuild.make_configuration(case['cfg'], fc, order_seed)
+                    if not shared_cfg:
+                        shared_cfg.append(wanted)
+                    for fld in dataclasses.fields(wanted):
+                        setattr(shared_cfg[0], fld.name, getattr(wanted, fld.name))
+                    with common.quiet():
+                        result = (builder or _B()).build(shared_cfg[0])
+                    files = [(gc.filename, gc.contents, gc.hash) for gc in result.files]
+                else:
+                    files = shellbuild.build_files(case['cfg'], fc, order_seed, builder=builder)
                 out = {'files': [[n, hashlib.sha256(c.encode('utf-8')).hexdigest(), h,
                                   hashlib.md5(c.encode('utf-8')).hexdigest()]
                                  for n, c, h in files]}
